@@ -18,7 +18,8 @@ import playback.studio.equalizer as eqmod
 from playback.studio.equalizer import (Equalizer, CompareExecutionConfig, ComparatorResult, EqualityStatus)
 
 MSG = {'cmp': 'cmp', 'boom-player': 'player', 'boom-extractor': 'extractor', 'boom-comparator': 'comparator',
-       'playback process have died': 'died', 'timeout while running recording playback and comparison': 'timeout'}
+       'playback process have died': 'died', 'timeout while running recording playback and comparison': 'timeout',
+       'boom-unpickle': 'unload', 'boom-put': 'refused'}
 
 
 class ConsumerError(Exception):
@@ -165,13 +166,19 @@ def run_once(ids, beh, dedicated, rate, timeout, keep, consume):
                     outcome = 'consumer-raised'
                 except IdSourceError:
                     outcome = 'iter-raised'
-        except fake_mp.SimDeadlock:
+        except fake_mp.SimDeadlock as ex:
             outcome = 'deadlock'
+            sim.why = sim.why or str(ex)
         except SystemExit:
             outcome = 'abort-exit'
         except fake_mp.WorkerHang:
             outcome = 'blocks'
         gc.collect()    # a dropped, suspended generator is closed by its finaliser (runs the finally block)
+        if sim.frozen is not None:
+            # the parent blocked for ever inside a finally block that ran in the generator's finaliser (the
+            # interpreter reports and drops what a finaliser raises)
+            outcome = 'deadlock'
+            sim.why = sim.why or 'in the finally block of the dropped generator'
         if outcome == 'deadlock' and sim.frozen is not None:
             before = sim.frozen
             after = before
@@ -182,7 +189,8 @@ def run_once(ids, beh, dedicated, rate, timeout, keep, consume):
         workers = [[o, [unrid(x) for x in served], s0, s1]
                    for (o, served, s0), (_, _, s1) in zip(before['workers'], after['workers'])]
         return dict(cmps=out, outcome=outcome, polls=before['polls'], workers=workers, events=after['events'],
-                    left=before['left'], lock=before['lock'], term=before['term'], clock=before['clock'], max_live=after['max_live'])
+                    left=before['left'], lock=before['lock'], term=before['term'], clock=before['clock'], max_live=after['max_live'],
+                    why=sim.why)
     finally:
         restore()
 
